@@ -16,7 +16,12 @@ def owner_fn(prog, body):
     b = body
     guard = 0
     while b is not None and b.kind == "Closure" and guard < 16:
-        b = prog.body(b.parent)
+        par = prog.body(b.parent)
+        if par is None:
+            # the parent was a helper that the normaliser inlined away: the closure now belongs to its (first) caller
+            into = getattr(prog, "inlined_into", {}).get(b.parent) or []
+            par = prog.body(into[0]) if into else None
+        b = par
         guard += 1
     return b or body
 
@@ -174,6 +179,10 @@ def check_constructed_only_in(ob, prog, adt, allowed, crates=None, floor=1):
 # R-PATHSEQ helpers
 
 
+_VARIANT_ENUMS = ("core::result::Result", "core::option::Option", "core::task::poll::Poll", "core::ops::control_flow::ControlFlow")
+_TRY_MAP = {"Ok": "Continue", "Err": "Break", "Some": "Continue", "None": "Break"}
+
+
 def fmt_word(w):
     return " ".join(s if isinstance(s, str) else ":".join(str(x) for x in s) for s in w)
 
@@ -256,6 +265,35 @@ def words_of(body, call_sym, edge_sym=None, stmt_sym=None, start=0, stops=(), ke
             return cache_b[bb]
         out = []
         bl = body.blocks[bb]
+        # enum-variant facts (path-wise constant propagation of discriminants): `L = Enum::V(payload)`, copies/moves,
+        # `(L as V).0` payload moves; consumed by the matching tests in sym_edge. Any other definition forgets.
+        for s in bl["s"]:
+            if s["k"] != "assign":
+                continue
+            lhs = s["lhs"]
+            if not isinstance(lhs, int):
+                if not isinstance(lhs, int) and not lhs["p"]:
+                    lhs = lhs["l"]
+                else:
+                    continue
+            rv = s["rv"]
+            if rv["k"] == "agg" and rv.get("ak") == "adt" and rv.get("variant") and rv.get("adt") in _VARIANT_ENUMS:
+                pay = None
+                if len(rv["ops"]) == 1 and isinstance(op_place(rv["ops"][0]), int):
+                    pay = op_place(rv["ops"][0])
+                out.append(("\x00vset", lhs, rv["variant"], pay))
+            elif rv["k"] == "use" and op_place(rv["op"]) is not None:
+                pl = op_place(rv["op"])
+                if isinstance(pl, int) or not pl["p"]:
+                    out.append(("\x00vcopy", lhs, place_local(pl)))
+                elif len(pl["p"]) == 2 and isinstance(pl["p"][0], dict) and "d" in pl["p"][0] and isinstance(pl["p"][1], dict) and pl["p"][1].get("f") == 0:
+                    out.append(("\x00vpay", lhs, pl["l"], pl["p"][0]["d"]))
+                else:
+                    out.append(("\x00vkill", lhs))
+            elif rv["k"] == "discr":
+                pass
+            else:
+                out.append(("\x00vkill", lhs))
         for s in bl["s"]:
             if s["k"] == "assign" and isinstance(s["lhs"], int) and s["lhs"] in flags:
                 out.append(("\x00set", s["lhs"], bool(s["rv"]["op"]["int"])))
@@ -274,6 +312,14 @@ def words_of(body, call_sym, edge_sym=None, stmt_sym=None, start=0, stops=(), ke
                     if x is not None:
                         out.append(x)
         c = body.call_at(bb)
+        if c is not None and isinstance(c.dest, int):
+            if name_matches(c.fn, "ops::try_trait::Try::branch") and c.args and isinstance(op_place(c.args[0]), int):
+                out.append(("\x00vtry", c.dest, op_place(c.args[0])))
+            elif name_matches(c.fn, "ops::try_trait::FromResidual::from_residual") and body.local_ty(c.dest).startswith(("core::result::Result<", "core::option::Option<")):
+                # `?` on the failure edge: the value built from the residual is the Err / None of the return type
+                out.append(("\x00vset", c.dest, "Err" if body.local_ty(c.dest).startswith("core::result::Result<") else "None", None))
+            else:
+                out.append(("\x00vkill", c.dest))
         if c is not None:
             if bb in inl:
                 out.append(("\x00alt", tuple(tuple(a_) for a_ in inl[bb])))
@@ -295,6 +341,14 @@ def words_of(body, call_sym, edge_sym=None, stmt_sym=None, start=0, stops=(), ke
             subj, labels = si
             labs = labels.get(b, set())
             tpl = op_place(body.blocks[a]["t"]["discr"])
+            if isinstance(tpl, int) and labs:
+                for s_ in reversed(body.blocks[a]["s"]):
+                    if s_["k"] == "assign" and s_["lhs"] == tpl:
+                        if s_["rv"]["k"] == "discr":
+                            dp = s_["rv"]["pl"]
+                            if isinstance(dp, int) or not dp["p"]:
+                                out.append(("\x00vtest", place_local(dp), frozenset(labs)))
+                        break
             fl = None
             if isinstance(tpl, int):
                 cur = tpl
@@ -308,7 +362,7 @@ def words_of(body, call_sym, edge_sym=None, stmt_sym=None, start=0, stops=(), ke
                     else:
                         break
             if fl is not None and labs in ({"true"}, {"false"}):
-                cache_e[(a, b)] = [("\x00test", fl, labs == {"true"})]
+                cache_e[(a, b)] = out + [("\x00test", fl, labs == {"true"})]
                 return cache_e[(a, b)]
             if not labs and subj[0] == "discr":
                 # `otherwise` edge of a match that already names every variant: infeasible
@@ -368,7 +422,40 @@ def words_of(body, call_sym, edge_sym=None, stmt_sym=None, start=0, stops=(), ke
             clean = []
             ret = None
             known = {}          # discr subject -> (admitted variants so far, depths that tested it)
+            vk = {}             # local -> (variant, payload local) known on this path
             for s_ in core:
+                if isinstance(s_, tuple) and s_ and isinstance(s_[0], str) and s_[0].startswith("\x00v"):
+                    if _depth > 0:
+                        clean.append(s_)
+                        continue
+                    tag = s_[0]
+                    if tag == "\x00vset":
+                        vk[s_[1]] = (s_[2], s_[3])
+                    elif tag == "\x00vcopy":
+                        if s_[2] in vk:
+                            vk[s_[1]] = vk[s_[2]]
+                        else:
+                            vk.pop(s_[1], None)
+                    elif tag == "\x00vpay":
+                        src = vk.get(s_[2])
+                        if src is not None and src[0] == s_[3] and src[1] is not None and src[1] in vk:
+                            vk[s_[1]] = vk[src[1]]
+                        else:
+                            vk.pop(s_[1], None)
+                    elif tag == "\x00vtry":
+                        src = vk.get(s_[2])
+                        if src is not None and src[0] in _TRY_MAP:
+                            vk[s_[1]] = (_TRY_MAP[src[0]], None)
+                        else:
+                            vk.pop(s_[1], None)
+                    elif tag == "\x00vkill":
+                        vk.pop(s_[1], None)
+                    elif tag == "\x00vtest":
+                        kv = vk.get(s_[1])
+                        if kv is not None and kv[0] not in s_[2]:
+                            feasible = False
+                            break
+                    continue
                 if isinstance(s_, tuple) and len(s_) == 5 and s_[0] == "\x00dtest":
                     _, key_, labs_, dep_, vis_ = s_
                     if _depth > 0:
@@ -402,6 +489,30 @@ def words_of(body, call_sym, edge_sym=None, stmt_sym=None, start=0, stops=(), ke
                     clean.append(s_)
             if not feasible:
                 continue
+            if any(isinstance(x_, tuple) and len(x_) == 2 and x_[0] == "\x00xm" for x_ in clean):
+                if _depth > 0:
+                    pass            # resolved by the outermost caller
+                else:
+                    ret_err = vk.get(0, (None,))[0] == "Err"
+                    res_ = []
+                    n_ = len(clean)
+                    for i_, x_ in enumerate(clean):
+                        if isinstance(x_, tuple) and len(x_) == 2 and x_[0] == "\x00xm":
+                            if x_[1] in ("Ok", "Some"):
+                                continue
+                            rest = [y_ for y_ in clean[i_ + 1:] if not (isinstance(y_, tuple) and len(y_) == 2 and y_[0] == "\x00xm")]
+                            if rest and rest[0] == "!err":
+                                continue                        # the caller's `?` marks this error exit already
+                            if all(isinstance(y_, str) and y_.startswith("ret=Err") for y_ in rest) and (ret_err or rest):
+                                res_.append("!err")
+                                continue
+                            res_.append(f"[{x_[1]}]")
+                        else:
+                            res_.append(x_)
+                    clean = res_
+            if _depth == 0 and inline is None and getattr(body, "inlined", None):
+                # an error propagated by an inlined helper's own `?` and again by the caller's: one error exit
+                clean = [x_ for i_, x_ in enumerate(clean) if not (x_ == "!err" and i_ > 0 and clean[i_ - 1] == "!err")]
             core_t = tuple(clean)
             if _depth > 0:
                 if (core_t, ret) not in res_l:
@@ -610,6 +721,12 @@ def std_edge(body, extra=None, strict=True):
                 return []
         if in_ignored_expansion(body, a):
             return []
+        if subj[0] == "discr" and labels and labels <= {"Ok", "Err", "Some", "None"} and len(labels) == 1:
+            # an explicit `match` on an Option/Result: the written-out form of `?` / `ok_or..?`. Resolved per word in
+            # words_of: Ok/Some edges are silent like a `?` that continues; an Err/None edge is the error exit `!err`
+            # when the path then returns an Err (or runs into the caller's own `?`) without further events, and stays
+            # visible as `[Err]` / `[None]` otherwise.
+            return ("\x00xm", lab)
         if strict:
             return f"?cond({show(subj)[:50]})={lab}"
         return []
@@ -622,8 +739,8 @@ def seq_words(body, call_sym, stmt_sym=None, extra_edge=None, strict=True, inlin
 
 
 def ok_words(ws):
-    """words not containing an error exit"""
-    return {w for w in ws if "!err" not in w}
+    """words not containing an error exit (`?` propagation, or an explicit `return Err(..)` where the rule names returns)"""
+    return {w for w in ws if "!err" not in w and "ret=Err" not in w}
 
 
 def const_of(t):
